@@ -210,6 +210,13 @@ pub struct UsesHigh {
     a: Alpha,
 }
 
+/// reaches the type that climbs too high only through another type
+#[derive(TS)]
+pub struct ViaHigh {
+    u: UsesHigh,
+    l: Leaf,
+}
+
 // ------------------------------------------------------------------------------------------------
 
 pub struct Entry {
@@ -301,6 +308,7 @@ pub fn entries() -> Vec<Entry> {
         entry!("Wrap<Alpha>", Wrap<Alpha>),
         entry!("TooHigh", TooHigh),
         entry!("UsesHigh", UsesHigh),
+        entry!("ViaHigh", ViaHigh),
         entry!("i32", i32),
         entry!("Vec<Alpha>", Vec<Alpha>),
     ]
